@@ -31,9 +31,10 @@ MAP = [
  ("signature_key_ids checks the issuer count of each signature", [("C10", "signature_key_ids failed on every package signed by this library (tested the accumulated list instead of the new ids)")]),
  ("user and group recommends in a stable order", [("C11", "user()/group() recommends emitted in hash-set iteration order: rebuilds of the same configuration differed")]),
  ("write_all for the index entries", [("C14", "index entries written with write() instead of write_all(): short writes were dropped (truncated output reported as success)")]),
- ("extract refuses paths that leave the target", [("C12", "'..' components in directory or base names wrote outside the target directory")]),
+ ("extract refuses paths that leave the target", [("C12", "'..' components in directory or base names wrote outside the target directory; relative (source package) paths made extraction fail")]),
  ("extract does not write through symbolic links", [("C12", "a symbolic link followed by a file of the same path or below it wrote outside the target directory")]),
  ("special files are an error instead of unreachable", [("C12", "file types other than regular/dir/symlink hit unreachable!()")]),
+ ("extract works for packages without files", [("C12", "extract failed for packages without files (directory names tag absent)")]),
 ]
 def main():
     log = subprocess.check_output(["git", "-C", "/repo", "log", "--format=%h %s"]).decode().splitlines()
